@@ -221,6 +221,11 @@ _add("rcp:temperature-list", "REACTION_TEMPERATURE 1\n 30 45 70\n", BASE_TOT)
 _add("rcp:temperature-equal", "REACTION_TEMPERATURE 1\n 15 90 in 4 steps\n", BASE_TOT)
 _add("rcp:pressure-list", "REACTION_PRESSURE 1\n 10 100 400\n", BASE_TOT + [("pressure", "PRESSURE"), ("rho", "RHO")])
 _add("rcp:pressure-equal", "REACTION_PRESSURE 1\n 1 500 in 3 steps\n", BASE_TOT + [("pressure", "PRESSURE"), ("rho", "RHO")])
+# lists long enough that the RAW writer wraps them over several lines (continuation lines of one identifier)
+_add("rcp:reaction-long", "REACTION 1\n NaCl 1\n 0.1 0.2 0.3 0.4 0.5 0.6 0.7 0.8 0.9 1.0 1.1 1.2 1.3 mmol\n", BASE_TOT)
+_add("rcp:temperature-long", "REACTION_TEMPERATURE 1\n 10 15 20 25 30 35 40 45 50 55 60 65 70\n", BASE_TOT)
+_add("rcp:pressure-long", "REACTION_PRESSURE 1\n 1 2 5 10 20 30 50 80 100 150 200 300 400\n", BASE_TOT + [("pressure", "PRESSURE"), ("rho", "RHO")])
+_add("ki:steps-long", "KINETICS 1\n Zero\n -formula KCl 1\n -m 0.002\n -parms 1e-6\n -tol 1e-8\n -steps 10 20 30 40 50 60 70 80 90 100 110 120 130\n", BASE_TOT + _KIN, kinetic=True)
 _add("rcp:mix", "MIX 1\n 1 0.6\n 2 0.8\n", BASE_TOT)
 _add("rcp:all",
      "REACTION 1\n CO2 1\n 1 3 mmol\nREACTION_TEMPERATURE 1\n 35 55\nREACTION_PRESSURE 1\n 5 50\nMIX 1\n 1 0.9\n 2 0.2\n"
